@@ -384,14 +384,38 @@ def positions(repo: Repo, rep, P: str):
     else:
         rep.violation(f"{P}.R4", f"{sv.file.rel}:SunVoxReader.process_SEND", s[:120], "a bare SEND must append an empty module position", sv.file.rel)
     eof = repo.own_method(sv, "process_end_of_file")
-    first = stmts_of(eof)[0] if stmts_of(eof) else None
-    if isinstance(first, ast.While) and norm(first.test) == "self.object.modules and self.object.modules[-1] is None" \
-            and norm(first.body[0]) == "self.object.modules.pop()":
-        rep.ok(f"{P}.R4", f"{sv.file.rel}:SunVoxReader.process_end_of_file", "while modules and modules[-1] is None: modules.pop()",
-               "only trailing empty positions are removed")
-    else:
-        rep.violation(f"{P}.R4", f"{sv.file.rel}:SunVoxReader.process_end_of_file", norm(first)[:120] if first else "",
-                      "only trailing empty positions may be removed at end of file", sv.file.rel)
+    n_trim = 0
+    parents = {}
+    for n in ast.walk(eof):
+        for c in ast.iter_child_nodes(n):
+            parents[id(c)] = n
+    for n in ast.walk(eof):
+        removing = None
+        if isinstance(n, ast.Call) and isinstance(n.func, ast.Attribute) and norm(n.func.value) == "self.object.modules" \
+                and n.func.attr in ("pop", "remove", "insert", "sort", "reverse", "clear"):
+            removing = n
+        if isinstance(n, ast.Delete) and any(isinstance(t, ast.Subscript) and norm(t.value) == "self.object.modules" for t in n.targets):
+            removing = n
+        if removing is None:
+            continue
+        n_trim += 1
+        ok = False
+        if isinstance(removing, ast.Call) and removing.func.attr == "pop" and not removing.args:
+            cur = removing
+            while id(cur) in parents:
+                cur = parents[id(cur)]
+                if isinstance(cur, (ast.While, ast.If)):
+                    conj = cur.test.values if isinstance(cur.test, ast.BoolOp) and isinstance(cur.test.op, ast.And) else [cur.test]
+                    if any(norm(c) in ("self.object.modules[-1] is None", "not self.object.modules[-1]") for c in conj):
+                        ok = True
+        if ok:
+            rep.ok(f"{P}.R4", f"{sv.file.rel}:SunVoxReader.process_end_of_file", "while … modules[-1] is None: modules.pop()",
+                   "only trailing empty positions are removed")
+        else:
+            rep.violation(f"{P}.R4", f"{sv.file.rel}:SunVoxReader.process_end_of_file", norm(removing)[:120],
+                          "module positions are removed/rearranged at end of file other than by dropping trailing empty positions",
+                          f"{sv.file.rel}:{removing.lineno}")
+    rep.instances["end_of_file_position_edits"] = n_trim
     removals = []
     for rel, sf in sorted(repo.files.items()):
         if not sf.modname.startswith("rv.readers"):
@@ -460,14 +484,64 @@ def fixups(repo: Repo, rep, P: str):
         rep.ok(f"{P}.R6", f"{rel}:SunVoxReader.process_chunks", "BVER absent → (1, 7, 0, 0)", "legacy default")
     else:
         rep.violation(f"{P}.R6", f"{rel}:SunVoxReader.process_chunks", pc[:200], "files without BVER must get the legacy based-on version", rel)
-    eof = repo.own_method(sv, "process_end_of_file")
-    s = norm(eof)
-    ok = "if self.object.loaded_sunvox_version < (1, 9, 5, 0):" in s and "note.module &= 255" in s
-    if ok:
-        rep.ok(f"{P}.R6", f"{rel}:SunVoxReader.process_end_of_file", "version < (1, 9, 5, 0) → note.module &= 0xFF", "legacy one-byte module numbers")
-    else:
-        rep.violation(f"{P}.R6", f"{rel}:SunVoxReader.process_end_of_file", "legacy module high byte", "the pre-1.9.5 module-number fix-up is missing or has a different bound",
-                      f"{rel}:{eof.lineno}")
+    module_highbyte_fixup(repo, rep, P, "R6", require_present=True)
+
+
+def module_highbyte_fixup(repo: Repo, rep, P: str, rule: str, require_present: bool):
+    """Every statement of the project reader that masks a note's module number to one byte is guarded by
+    `loaded_sunvox_version < (1, 9, 5, 0)` (the version of the file itself, VERS) — otherwise module numbers
+    >= 256 of current files are truncated on load.  With require_present the fix-up must also exist."""
+    from ..packed import subst_locals
+    sv = repo.cls("SunVoxReader", module="rv.readers.sunvox")
+    rel = sv.file.rel
+    masks = []
+    for name, fn in sv.methods.items():
+        parents = {}
+        for n in ast.walk(fn):
+            for fld, val in ast.iter_fields(n):
+                for c in (val if isinstance(val, list) else [val]):
+                    if isinstance(c, ast.AST):
+                        parents[c] = (n, fld)
+        for n in ast.walk(fn):
+            tgt = val = None
+            if isinstance(n, ast.AugAssign) and isinstance(n.op, ast.BitAnd):
+                tgt, val = n.target, n.value
+            elif isinstance(n, ast.Assign) and len(n.targets) == 1 and isinstance(n.value, ast.BinOp) and isinstance(n.value.op, ast.BitAnd):
+                tgt, val = n.targets[0], n.value.right
+            if not (isinstance(tgt, ast.Attribute) and tgt.attr == "module"):
+                continue
+            guards = []
+            cur = n
+            while cur in parents:
+                par, fld = parents[cur]
+                if isinstance(par, ast.If) and fld == "body":
+                    guards.append(par.test)
+                cur = par
+            masks.append((name, fn, n, guards))
+    good = 0
+    for name, fn, n, guards in masks:
+        ok = False
+        for g in guards:
+            g2 = subst_locals(fn, g)
+            if isinstance(g2, ast.Compare) and len(g2.ops) == 1 and isinstance(g2.ops[0], ast.Lt) \
+                    and norm(g2.left) == "self.object.loaded_sunvox_version":
+                try:
+                    bound = repo.fold(g2.comparators[0], ci=sv)
+                except NotConst:
+                    continue
+                if isinstance(bound, tuple) and bound <= (1, 9, 5, 0):
+                    ok = bound == (1, 9, 5, 0) or not require_present
+        if ok:
+            good += 1
+            rep.ok(f"{P}.{rule}", f"{rel}:SunVoxReader.{name}", norm(n), "one-byte module mask only for files written before 1.9.5.0 (VERS)")
+        else:
+            rep.violation(f"{P}.{rule}", f"{rel}:SunVoxReader.{name}", norm(n),
+                          "a note's module number is masked to one byte without the guard `loaded_sunvox_version < (1, 9, 5, 0)`: "
+                          f"guards seen: {[norm(g) for g in guards]}", f"{rel}:{n.lineno}")
+    if require_present and not masks:
+        eof = repo.own_method(sv, "process_end_of_file")
+        rep.violation(f"{P}.{rule}", f"{rel}:SunVoxReader.process_end_of_file", "legacy module high byte",
+                      "the pre-1.9.5 module-number fix-up is missing", f"{rel}:{eof.lineno}")
 
 
 def defaults_vs_spec(repo: Repo, rep, P: str):
